@@ -350,7 +350,7 @@ func msgpackAllocHint(mp []*ast.File) int {
 func limitsExtra(repo string, mp []*ast.File) string {
 	js := parseDir(filepath.Join(repo, "cty/json"))
 	var b strings.Builder
-	fmt.Fprintf(&b, "/-- cty/json ImpliedType: arrays/objects nested this deep or deeper are refused (`const maxImpliedTypeDepth`;\nchecked: `if depth >= maxImpliedTypeDepth { return …, error }` precedes both descents, which pass `depth+1`) -/\ndef jsonMaxImpliedTypeDepth : Nat := %d\n", jsonImpliedTypeDepth(js))
+	fmt.Fprintf(&b, "/-- cty/json ImpliedType: arrays/objects nested this deep or deeper are refused (`const maxImpliedTypeDepth`;\nchecked: `if depth >= maxImpliedTypeDepth { return …, error }` precedes both descents, which pass `depth+1`) -/\ndef jsonImpliedTypeDepthLimit : Nat := %d\n", jsonImpliedTypeDepth(js))
 	fmt.Fprintf(&b, "/-- cty/msgpack: most elements pre-allocated on the word of a length header (`const max` of `allocHint`;\nchecked body: `if announced > max { return max }; return announced`) -/\ndef msgpackAllocHintMax : Nat := %d\n", msgpackAllocHint(mp))
 	return b.String()
 }
